@@ -8,6 +8,7 @@ import MdIt.Drv.Render
 import MdIt.Drv.Url
 import MdIt.Drv.Core
 import MdIt.Drv.Inline
+import MdIt.Drv.Block
 open MdIt
 
 def handle (line : String) : String :=
@@ -19,6 +20,7 @@ def handle (line : String) : String :=
   | "world" :: rest => Drv.worldLine rest
   | "dictrt" :: rest => Drv.dictrtLine rest
   | "tree" :: rest => Drv.treeLine rest
+  | "blockloop" :: rest => Drv.blockLoopLine rest
   | "unescape" :: rest => Drv.unescapeLine rest
   | "inline" :: rest => Drv.inlineLine rest
   | "textjoin" :: rest => Drv.textJoinLine rest
